@@ -279,3 +279,18 @@ def pose_distance(k, a, b):
         qa, qb = np.array(a[3:]), np.array(b[3:])
         return dt, float(min(np.abs(qa - qb).max(), np.abs(qa + qb).max()))
     return dt, 0.0
+
+
+def same_numbers(k, x, y):
+    """Bitwise equality of two numeric pose contents, identifying the SE(2) angles +pi and -pi
+    (the constructor maps +pi to -pi, so a copy of a pose whose stored angle is exactly +pi stores -pi: same pose)."""
+    x, y = list(x), list(y)
+    if len(x) != len(y):
+        return False
+    for j, (a, b) in enumerate(zip(x, y)):
+        if a == b or (a != a and b != b):
+            continue
+        if k == "se2" and j == 2 and abs(a) == math.pi and abs(b) == math.pi:
+            continue
+        return False
+    return True
